@@ -4,8 +4,10 @@ G: TLC enumerates the configuration space of spec/FilterGen.tla (Prop = "C15"): 
    input classes (empty, one byte, runs of 127/128/129..., alternations, lengths around the 4-byte ASCII85 groups, inputs that
    drive the LZW table over its 9/10/11/12 bit code-width changes and the table reset).
 R: harness/cmd/filter c15 runs every case through the real code: filter.NewFilter(...).Encode/Decode stage by stage; whole
-   types.StreamDict objects (Encode -> fresh object Decode -> modify -> Encode -> Decode); and PDF files (stream objects emitted
-   byte by byte, api.ReadContext -> Decode -> modify -> Encode -> api.WriteContext -> ReadContext -> Decode).
+   types.StreamDict objects (Encode -> fresh object with Raw only -> Decode -> edit -> Encode -> Decode); and PDF files (stream
+   objects emitted byte by byte, api.ReadContext -> Decode -> edit -> Encode -> api.WriteContext -> ReadContext -> Decode).  The
+   edit is one of the class Edits of spec/Filter.tla (append, prepend, replace in place, truncate to 1 byte, truncate to empty by
+   re-slicing / by a new empty slice, nil-then-assign, grow across block boundaries); ApplyEdit gives the expected content.
 V: TLC judges every record (spec/FilterTrace.tla, Verdict15): accepted pipelines must round-trip at all three levels; pipelines
    pdfcpu does not accept must fail instead of returning other bytes; every RunLength/ASCIIHex/ASCII85 stage output is decoded
    with the TLA+ reference decoders of spec/Filter.tla (written from ISO 32000-1 7.4) and must give the stage input, EOD at the
@@ -36,10 +38,11 @@ def key_of(r, why):
                 "a stream encoded by pdfcpu with FlateDecode and DecodeParms /Predictor >= 2 (%s) does not decode to the original bytes: "
                 "Encode does not apply the predictor that Decode undoes, e.g. %s on %s: %s" % (
                     kind, ff.pipe_sig(r["pipe"]), ff.inp_sig(r["inp"]), r["err"] or "decoded bytes differ"))
-    return ("%s|%s|%s" % ("+".join(why), ff.pipe_sig(r["pipe"]), ff.inp_sig(r["inp"])),
-            "%s: pipeline [%s] input %s (%d bytes): encOk=%s decOk=%s eq=%s sd=(%s,%s,%s,%s,%s,%s,%s,%s) file=%r err=%r" % (
-                ",".join(why), ff.pipe_sig(r["pipe"]), ff.inp_sig(r["inp"]), r["n"], r["encOk"], r["decOk"], r["eq"],
-                r["sdEncOk"], r["sdRawEq"], r["sdLenOk"], r["sdDecOk"], r["sdEq"], r["sdModOk"], r["sdModEq"], r["sdModNew"],
+    return ("%s|%s|%s|%s" % ("+".join(why), ff.pipe_sig(r["pipe"]), ff.inp_sig(r["inp"]), r["edit"]),
+            "%s: pipeline [%s] input %s (%d bytes) edit %s: encOk=%s decOk=%s eq=%s sd=(enc %s raw %s len %s dec %s eq %s | edited: ok %s eq %s "
+            "fresh-raw %s len %s) file=%r err=%r" % (
+                ",".join(why), ff.pipe_sig(r["pipe"]), ff.inp_sig(r["inp"]), r["n"], r["edit"], r["encOk"], r["decOk"], r["eq"],
+                r["sdEncOk"], r["sdRawEq"], r["sdLenOk"], r["sdDecOk"], r["sdEq"], r["sdModOk"], r["sdModEq"], r["sdModFresh"], r["sdModLen"],
                 r["file"], r["err"]))
 
 
@@ -66,13 +69,13 @@ def run(ctx):
         ff.report_grouped(ctx, groups)
         obs = sum(len(r["obs"]) for r in rows)
         ev.cov(evaluations=n, distinct_nontrivial=summ["nontrivial"], traces_validated_against_impl=len(rows),
-               rule="every state of FilterGen.tla (Prop=C15, Tier=%s) is one case (pipeline of 1-3 filters with decode parameters x input class), "
+               rule="every state of FilterGen.tla (Prop=C15, Tier=%s) is one case (pipeline of 1-3 filters with decode parameters x input class x edit of the decode-edit-encode step), "
                     "replayed at three levels into the real code (filter chain, StreamDict decode/modify/re-encode, written and re-read PDF file) "
                     "and judged by TLC; distinct non-trivial = distinct cases whose input has more than one byte" % ctx.tier,
                exhaustive=True, replayed_cases=n, by_value_in_tlc=sum(1 for r in rows if r["small"]),
                reference_decoded_stage_outputs=obs, file_round_trips=sum(1 for r in rows if r["file"] == "ok"),
                pipelines=len({ff.pipe_sig(r["pipe"]) for r in rows}), input_kinds=summ["kinds"],
-               records_rejected_by_spec=len(bad))
+               edits=dict(collections.Counter(r["edit"] for r in rows)), records_rejected_by_spec=len(bad))
         for r in rows[:1] + [r for r in rows if len(r["pipe"]) == 3 and r["small"] and r["n"] > 4][:1] + [r for r, _ in bad[:1]]:
             ev.sample(r)
         ev.assume("Flate/LZW byte fidelity is an equality observation made in Go (bytes.Equal), re-checked by value in TLC only for inputs <= 48 bytes",
